@@ -104,6 +104,7 @@ func runC16(p *core.Program, r *core.Report) {
 	c16Doc(p, r)
 	c16Methods(p, r)
 	c16Depth(p, r)
+	sharedRecursionStateRule(p, r, "R16.5", "conf", "checker")
 	r.Floor("R16.1", 3)
 	r.Floor("R16.2", 2)
 	r.Floor("R16.3", 4)
